@@ -288,9 +288,9 @@ def _run(case, solver_obj=None, keep=False):
 
                     class Sol(Solver):
                         def _compute_step(self, controller, iterate, rho, dt, display, timer):
-                            out["last_rho"] = float(rho)
+                            self._verif_out["last_rho"] = float(rho)
                             res = super()._compute_step(controller, iterate, rho, dt, display, timer)
-                            trials.append({"z": iterate.z.tolist(), "rho": float(rho), "dt": float(dt),
+                            self._verif_trials.append({"z": iterate.z.tolist(), "rho": float(rho), "dt": float(dt),
                                            "zn": res.iterate.z.tolist(), "lamb": float(res.lamb), "acc": bool(res.accepted),
                                            "i": oid(iterate), "in": oid(res.iterate), "disp": bool(display)})
                             return res
@@ -298,11 +298,15 @@ def _run(case, solver_obj=None, keep=False):
             else:
                 solver = solver_obj
                 params = solver.params
+            if hasattr(solver, "_compute_step") and not case.get("integration"):
+                solver._verif_trials, solver._verif_out = trials, out      # this run's recorders (also on a reused solver)
+            # (through the public API only; on a reused solver the recorder of the earlier run stays registered and keeps
+            # writing to its own list: a callback registered later must be told about every step all the same)
             if obs.get("callbacks", True) and not case.get("integration"):
-                solver.callbacks._callbacks.clear()
-                solver.callbacks.register(CallbackType.ComputedStep,
-                                          lambda it, nx, acc: ann.append({"z": it.z.tolist(), "zn": nx.z.tolist(), "acc": bool(acc),
-                                                                          "rho": float(getattr(solver, "rho", 0.0))}))
+                solver._verif_handle = solver.callbacks.register(
+                    CallbackType.ComputedStep,
+                    lambda it, nx, acc: ann.append({"z": it.z.tolist(), "zn": nx.z.tolist(), "acc": bool(acc),
+                                                    "rho": float(getattr(solver, "rho", 0.0))}))
             out["constructed"] = True
             pbefore = params_snapshot(params)
             dbefore = params_snapshot(type(params)())
@@ -604,8 +608,9 @@ def oracle_C12(case, rec):
         ts = rec["times"]
         if len(dts) == rec["nacc"]:
             for k, dtk in enumerate(dts):
-                if abs((ts[k + 1] - ts[k]) - dtk) > 1e-9 * max(1.0, abs(ts[k + 1])):
-                    return "model_times: step %d advanced the model time by %r, the step size used was %r" % (k, ts[k + 1] - ts[k], dtk)
+                # exactly: the binary64 sum of the previous model time and the step size used (in every precision mode)
+                if ts[k + 1] != ts[k] + dtk:
+                    return "model_times: step %d advanced the model time from %r to %r, the step size used was %r" % (k, ts[k], ts[k + 1], dtk)
     if rec.get("dist_factor") is not None and rec["dist_factor"] < 1.0:
         return "dist_factor: %r < 1" % rec["dist_factor"]
     return None
